@@ -1206,7 +1206,9 @@ class _Part2:
   def render(self, model):
     self.model = model
     self.kept_reps = []
-    self.tree = self.build(model['world'], IDENT, 0)
+    # the root body of a child model is never wrapped in frames: what happens to frames enclosing an attached body is
+    # not documented (observed: they are ignored while the body's own pos/quat is kept)
+    self.tree = self.build(model['world'], IDENT, 2 if self.is_child else 0)
     # extras (tendons / actuators / sensors) of this document
     mem = rep_membership(model) if not self.is_child else {}
     kept = set(id(r) for r in self.kept_reps)
